@@ -1,0 +1,59 @@
+//go:build verif
+
+// Machine-checked contracts for package utils (comment-only; read by /verif/bin/vcgo).
+// le16/be16/le32/be32/le64/be64 are defined in /verif/specs/bytes.spec from the definitions of the two byte orders.
+package utils
+
+// C07: the ByteOrder-dispatched readers/writers equal the byte-order definitions. Only BigEndian selects big-endian;
+// every other value (LittleEndian, UnknownEndian) reads little-endian - that is what the code does and callers rely on it.
+
+//@ func ByteOrder.Uint16
+//@   props C07 C01
+//@   requires len(buf) >= 2
+//@   pure
+//@   ensures [C07] bo == BigEndian ==> r0 == be16(buf, 0)
+//@   ensures [C07] bo != BigEndian ==> r0 == le16(buf, 0)
+
+//@ func ByteOrder.Uint32
+//@   props C07 C01
+//@   requires len(buf) >= 4
+//@   pure
+//@   ensures [C07] bo == BigEndian ==> r0 == be32(buf, 0)
+//@   ensures [C07] bo != BigEndian ==> r0 == le32(buf, 0)
+
+//@ func ByteOrder.Uint64
+//@   props C07 C01
+//@   requires len(buf) >= 8
+//@   pure
+//@   ensures [C07] bo == BigEndian ==> r0 == be64(buf, 0)
+//@   ensures [C07] bo != BigEndian ==> r0 == le64(buf, 0)
+
+//@ func ByteOrder.PutUint16
+//@   props C07 C01
+//@   requires len(b) >= 2
+//@   modifies mem(b)
+//@   ensures [C07] bo == BigEndian ==> be16(b, 0) == v
+//@   ensures [C07] bo != BigEndian ==> le16(b, 0) == v
+
+//@ func ByteOrder.PutUint32
+//@   props C07 C01
+//@   requires len(b) >= 4
+//@   modifies mem(b)
+//@   ensures [C07] bo == BigEndian ==> be32(b, 0) == v
+//@   ensures [C07] bo != BigEndian ==> le32(b, 0) == v
+
+//@ func ByteOrder.PutUint64
+//@   props C07 C01
+//@   requires len(b) >= 8
+//@   modifies mem(b)
+//@   ensures [C07] bo == BigEndian ==> be64(b, 0) == v
+//@   ensures [C07] bo != BigEndian ==> le64(b, 0) == v
+
+// The byte order is derived from the TIFF signature (TIFF 6.0 section 2): "MM\0*" big-endian, "II*\0" little-endian.
+//@ func BinaryOrder
+//@   props C07 C12 C01
+//@   requires len(buf) >= 4
+//@   pure
+//@   ensures [C07] hasAt(buf, 0, "MM\x00*") ==> r0 == BigEndian
+//@   ensures [C07] hasAt(buf, 0, "II*\x00") ==> r0 == LittleEndian
+//@   ensures [C07] !hasAt(buf, 0, "MM\x00*") && !hasAt(buf, 0, "II*\x00") ==> r0 == UnknownEndian
